@@ -161,12 +161,23 @@ pub fn hist_cfg() -> GenCfg {
 
 pub fn run(ctx: &Ctx) {
     ctx.run_prop("lib-ws", ctx.tier.pick(12_000, 600_000), 16, || workspace(cfg()).prop_map(|ws| Case { ws }), |c, info| check_ws(&c.ws, info));
+    ctx.run_prop_shrink("lsp-cli", ctx.tier.pick(100, 2500), 8, 150, || workspace(lsp_cfg()).prop_map(|ws| Case { ws }), |c, info| {
+        crate::props::lsp_tiers::c04_counters(ctx, &c.ws, info)
+    });
     ctx.run_prop("lib-history", ctx.tier.pick(3_000, 150_000), 16, || history(hist_cfg(), 6), |h, info| check_history(h, info));
 }
 
-pub fn judge(_ctx: &Ctx, sub: &str, case: &Value) -> Option<Outcome> {
+pub fn lsp_cfg() -> GenCfg {
+    GenCfg { names: 3, max_depth: 3, max_items: 3, allow_dups_in_file: false, ..GenCfg::default() }
+}
+
+pub fn judge(ctx: &Ctx, sub: &str, case: &Value) -> Option<Outcome> {
     let mut info = CaseInfo::default();
     match sub {
+        "lsp-cli" => {
+            let c: Case = from_case(case)?;
+            Some(crate::props::lsp_tiers::c04_counters(ctx, &c.ws, &mut info))
+        }
         "lib-ws" => {
             let c: Case = from_case(case)?;
             Some(check_ws(&c.ws, &mut info))
